@@ -96,9 +96,16 @@ namespace Index
     at most six fixture names; beyond that only the registration order and its reverse are tried).
     The memo (`cycle_cache`) is keyed by the definitions version only. -/
 def cyclesAlternatives (st : Index) : List (List Cycle) × Index :=
-  let names := namesOf st.defs
-  let orders := if names.length ≤ 6 then perms names else [names, names.reverse]
-  (orders.map (computeCycles st.defs), st)
+  match st.cycleCache with
+  | some (ver, alts) =>
+    if ver == st.version then (alts, st) else recompute st
+  | none => recompute st
+where
+  recompute (st : Index) : List (List Cycle) × Index :=
+    let names := namesOf st.defs
+    let orders := if names.length ≤ 6 then perms names else [names, names.reverse]
+    let alts := orders.map (computeCycles st.defs)
+    (alts, { st with cycleCache := some (st.version, alts), cycleEpoch := st.epoch })
 
 end Index
 end PLS
